@@ -18,6 +18,8 @@
                  every submitted message appears exactly once, each thread's messages in its program order, and
                  nothing else appears.  (Body = every field of the wire message that is not a standard header /
                  trailer field; the generated cases make all bodies pairwise different.)
+     (overlap)   with a persister: no two put() calls on it overlapped (the harness counts them: OVERLAP 0) -- the
+                 observable part of "no data race occurs" for the non-thread-safe persisters
      (store)     with a persister: every application message on the wire is stored under its own number with
                  exactly its wire bytes; an administrative message is not stored (C17's msg_ok, per message)
    "No data race occurs" is not a function of these observables: the TSan tier reports it (see the suite).
@@ -133,7 +135,11 @@ Fixpoint outs_of (evs : list event) : list bytes :=
 (* nothing but complete FIX messages and the per-thread return values: no unframed bytes, no exception, no
    harness note (NOTQUIET = the writer did not drain in time, NOSESSION, ...) *)
 Definition clean_events (evs : list event) : bool :=
-  forallb (fun e => match e with EOut _ => true | ENote b => is_tret b | _ => false end) evs.
+  forallb (fun e => match e with
+                     | EOut _ => true
+                     | ERet _ => true                                 (* the reader thread's answers to the inbound messages *)
+                     | ENote b => is_tret b || beq b [79;86;69;82;76;65;80;32;48]     (* "OVERLAP 0": no two persister puts overlapped *)
+                     | _ => false end) evs.
 Definition has_exc (evs : list event) : bool :=
   existsb (fun e => match e with EExc _ => true | _ => false end) evs.
 
@@ -159,7 +165,7 @@ Fixpoint c25_steps (pipe : bool) (prev : option N) (pk : pkind) (ops : list cop)
   | o :: ops', st :: tr' =>
     let pk' := match o with CPlain (OStart p _) _ => sp_pk p | _ => pk end in
     let pipe' := match o with CPlain _ (Some b) => b | _ => pipe end in
-    let ok := match o with CConc progs => c25_step_ok pipe' prev pk' progs st | _ => true end in
+    let ok := match o with CConc progs _ => c25_step_ok pipe' prev pk' progs st | _ => true end in
     let prev' := match st_snap st with Some sn => Some (sn_send sn) | None => prev end in
     ok && c25_steps pipe' prev' pk' ops' tr'
   | _, _ => false
